@@ -711,6 +711,8 @@ def check(rep, tier):
     walkerdep.obligations(rep, tier, 'C10')
     from vlib import userdep
     userdep.obligations(rep, tier, 'C10', which=('info',))
+    from vlib import fetchdep
+    fetchdep.obligations(rep, tier, 'C10')
     rep.dropped = 'method bodies read with ast.parse; nested callback executed as a closure'
     rep.assume('str.lower is an idempotent function (uninterpreted)', 'planner.databases holds lower-cased names (C10.init)',
                'routing over table positions relies on query_traversal (C13 findings inherited)')
